@@ -460,6 +460,9 @@ def close_rule(ctx: Ctx, rule: str = "CLOSE") -> None:
 
 def check(ctx: Ctx) -> None:
     _main_check(ctx)
+    # every call reads its events (they carry the bar's signature): the merge of the inputs and the pairing are unconditional
+    from .c01 import input_rule
+    input_rule(ctx, ctx.p.func(f"{T.TOK}.tokenise") if hasattr(T, "TOK") else ctx.p.func("MultiTrackLargeVocabularyNotelikeTokeniser.tokenise"))
     from ..engines.structure import concat_rule      # the bars of a chunk are re-joined through these three functions
     ctx.floor("concatenation levels decided", concat_rule(ctx), 3)
     from .common import view_deps
